@@ -76,7 +76,7 @@ def is_strategy_sel(t: Any) -> bool:
 
 def is_remaining_s(t: Any) -> bool:
     # (deadline - elapsed()).total_seconds()
-    if not (isinstance(t, tuple) and t[0] == "pure" and t[1] == ".total_seconds" and len(t[2]) == 1):
+    if not (isinstance(t, tuple) and len(t) == 4 and t[0] == "pure" and t[1] == ".total_seconds" and len(t[2]) == 1):
         return False
     d = t[2][0]
     return isinstance(d, tuple) and d[0] == "op" and d[1] == "-" and d[2] == DEADLINE and is_elapsed(d[3])
